@@ -302,3 +302,62 @@ func c01Edits(c *fw.Ctx, trees []resp.Value) {
 func dummyFor(v resp.Value) *proto.Message {
 	return c01Build(v, nil, map[string]*proto.Message{})
 }
+
+// c01SharedBuffer: serialization reads its values, it does not write into them. The bulk
+// payloads of an array are consecutive sub-slices of ONE buffer owned by the caller (each with
+// spare capacity reaching into its neighbour), followed by two guard bytes: the encoding must
+// be canonical and the caller's buffer must be byte for byte what it was.
+func c01SharedBuffer(payloads [][]byte) (clause, detail string) {
+	var buf []byte
+	var bounds [][2]int
+	for _, p := range payloads {
+		bounds = append(bounds, [2]int{len(buf), len(buf) + len(p)})
+		buf = append(buf, p...)
+	}
+	buf = append(buf, 0xA5, 0x5A, 0xA5, 0x5A)
+	before := cp(buf)
+	arr := proto.NewArray()
+	want := resp.A()
+	for i, b := range bounds {
+		arr.Append(proto.NewMessageWithType(proto.BulkMessage).SetBytes(buf[b[0]:b[1]]))
+		want.Elems = append(want.Elems, resp.Value{Kind: resp.Bulk, Data: cp(payloads[i])})
+	}
+	m := proto.NewMessageWithType(proto.ArrayMessage).SetArray(arr)
+	for round := 1; round <= 2; round++ {
+		var got []byte
+		var err error
+		if p := guard(func() { got, err = m.RESPBytes() }); p != "" {
+			return "serialize-panic", p
+		}
+		if err != nil || !bytes.Equal(got, want.Bytes()) {
+			return "serialize-bytes", fmt.Sprintf("serialization #%d of payloads %q that are sub-slices of one buffer = %s, canonical %s", round, payloads, trunc(got, 80), trunc(want.Bytes(), 80))
+		}
+		if !bytes.Equal(buf, before) {
+			return "serialize-wrote-into-value", fmt.Sprintf("serializing payloads %q changed the caller's buffer from %q to %q", payloads, trunc(before, 60), trunc(buf, 60))
+		}
+	}
+	return "", ""
+}
+
+func c01Shared(c *fw.Ctx) {
+	sets := [][][]byte{
+		{[]byte("alpha"), []byte("beta"), []byte("gamma")}, {[]byte(""), []byte("value")}, {[]byte("a"), []byte(""), []byte("b")},
+		{[]byte("x")}, {[]byte("")}, {[]byte("\r\n"), []byte("\r\n")}, {[]byte("ab"), []byte("cd"), []byte("ef"), []byte("gh")},
+	}
+	for b := 0; b < 256; b++ {
+		sets = append(sets, [][]byte{{byte(b)}, {byte(b), byte(b)}})
+	}
+	for _, L := range []int{0, 1, 2, 3, 62, 63, 64, 65, 1022, 1023, 1024, 1025, 4095, 4096, 4097} {
+		sets = append(sets, [][]byte{bytes.Repeat([]byte("p"), L), bytes.Repeat([]byte("q"), L)})
+	}
+	for _, ps := range sets {
+		if !c.Mine() {
+			continue
+		}
+		c.Eval()
+		c.Nontrivial()
+		if clause, detail := c01SharedBuffer(ps); clause != "" {
+			c.Violation("C01|shared-buffer|"+clause, detail, c01EditCase{Kind: "shared", Value: resp.A().Bytes()})
+		}
+	}
+}
